@@ -1,5 +1,6 @@
 """C03 - decoding untrusted bytes is memory-safe, bounded and terminating"""
-import os, subprocess
+import os, re, glob, shutil, subprocess, hashlib
+from concurrent.futures import ThreadPoolExecutor
 from vlib import build, core
 
 T = os.path.join(build.REPO, 'tests')
@@ -8,6 +9,7 @@ HARNESSES = {
     'h_c03/asan': ('h_c03', 'asan', dict(sources=['h_c03.c', 'legacy_vectors.c'], cflags=['-I' + T, '-Wno-deprecated-declarations'], hash_subdirs=['tests'])),
     'h_c03/plain': ('h_c03', 'plain', dict(sources=['h_c03.c', 'legacy_vectors.c'], cflags=['-I' + T, '-Wno-deprecated-declarations'], hash_subdirs=['tests'])),
     'h_c03/val': ('h_c03', 'val', dict(sources=['h_c03.c', 'legacy_vectors.c'], cflags=['-I' + T, '-Wno-deprecated-declarations'], hash_subdirs=['tests'])),
+    'h_c03fuzz': ('h_c03fuzz', 'fuzz', dict(sources=['h_c03.c', 'legacy_vectors.c'], cflags=['-I' + T, '-Wno-deprecated-declarations', '-DH_C03_FUZZ', '-DV_VIOL_ABORTS'], hash_subdirs=['tests'])),
     'decodecorpus': ('decodecorpus', 'plain', dict(sources=['empty.c'], repo_sources=['tests/decodecorpus.c', 'programs/util.c', 'programs/timefn.c'],
                                                    cflags=['-I' + os.path.join(build.REPO, 'programs'), '-w'], ldflags=['-lm'], refdec=False, hash_subdirs=['tests', 'programs'])),
 }
@@ -20,6 +22,97 @@ def make_corpus(exe, outdir, nplain, ndict, seed=4242):
     subprocess.run([exe, '-p' + os.path.join(outdir, 'plain'), '-o' + os.path.join(outdir, 'orig-plain'), '-n%d' % nplain, '-s%d' % seed], stdout=subprocess.DEVNULL, stderr=subprocess.DEVNULL, timeout=1200)
     subprocess.run([exe, '-p' + os.path.join(outdir, 'dict'), '-o' + os.path.join(outdir, 'orig-dict'), '-n%d' % ndict, '-s%d' % (seed + 1), '--use-dict=4096'], stdout=subprocess.DEVNULL, stderr=subprocess.DEVNULL, timeout=1200)
     return outdir
+
+FUZZ_ENV = {'ASAN_OPTIONS': 'abort_on_error=1:detect_leaks=0:allocator_may_return_null=1:malloc_context_size=8:handle_abort=1', 'UBSAN_OPTIONS': 'print_stacktrace=1:halt_on_error=1'}
+
+
+def _fuzz_single(fexe, path, timeout=600):
+    """one input through the coverage-guided harness, alone: (rc, stderr)"""
+    e = dict(os.environ, VERIF_REPO=build.REPO); e.update(FUZZ_ENV)
+    try:
+        p = subprocess.run([fexe, path, '-timeout=240', '-rss_limit_mb=8000', '-detect_leaks=0'], env=e, stdout=subprocess.PIPE, stderr=subprocess.PIPE, errors='replace', timeout=timeout)
+        return p.returncode, p.stderr
+    except subprocess.TimeoutExpired:
+        return None, ''
+
+
+def _fuzz_key(err, rc):
+    m = re.search(r'^MONITOR-VIOLATION\t([^\t\n]+)', err, re.M)
+    if m:
+        return 'fuzz:' + m.group(1)
+    if 'libFuzzer: timeout' in err:
+        return 'hang:h_c03fuzz'
+    if 'libFuzzer: out-of-memory' in err:
+        return None
+    return core.crash_key(err, -6 if rc else 0)
+
+
+def fuzz_stage(R, res, plain_exe, seed, env, thorough):
+    """coverage-guided search (libFuzzer, clang ASan+UBSan build of the current tree) over the same multi-entry harness: NJOBS independent fuzzers,
+    each bounded by -runs (never by time), seeded with the frame corpus + one field-aware mutation of each frame; every artifact is re-run alone to
+    obtain its report and goes through the usual violation keys."""
+    fexe = build.build_harness(*HARNESSES['h_c03fuzz'][:2], **HARNESSES['h_c03fuzz'][2])
+    fd = os.path.join(R.tmp, 'fuzz'); seeds = os.path.join(fd, 'seeds'); art = os.path.join(fd, 'art'); os.makedirs(seeds); os.makedirs(art)
+    e = dict(os.environ, VERIF_REPO=build.REPO); e.update(env)
+    subprocess.run([plain_exe, 'dump-corpus=' + seeds, '--seed', str(seed)], env=e, stdout=subprocess.DEVNULL, stderr=subprocess.DEVNULL, timeout=600)
+    nseeds = len(os.listdir(seeds))
+    if nseeds < 50:
+        raise build.BuildError('coverage-guided stage: seed corpus too small (%d)' % nseeds)
+    njobs = core.NPROC; runs = 400000 if thorough else 2500
+    fe = dict(e); fe.update(FUZZ_ENV)
+
+    def job(i):
+        od = os.path.join(fd, 'corpus%d' % i); os.makedirs(od)
+        log = os.path.join(fd, 'log%d' % i)
+        with open(log, 'w') as lf:
+            try:
+                p = subprocess.run([fexe, od, seeds, '-runs=%d' % runs, '-seed=%d' % (seed * 1000 + i + 1), '-max_len=100000', '-timeout=120', '-rss_limit_mb=6000', '-malloc_limit_mb=4000',
+                                    '-artifact_prefix=' + art + '/j%d-' % i, '-print_final_stats=1', '-detect_leaks=0', '-reload=0'], env=fe, stdout=lf, stderr=subprocess.STDOUT, cwd=fd, timeout=4 * 3600 if thorough else 1500)
+                rc = p.returncode
+            except subprocess.TimeoutExpired:
+                rc = None
+        t = open(log, errors='replace').read()
+        m = re.search(r'stat::number_of_executed_units:\s+(\d+)', t); ex = int(m.group(1)) if m else 0
+        covs = re.findall(r'cov: (\d+) ft: (\d+) corp: (\d+)', t)
+        init = re.search(r'INITED cov: (\d+) ft: (\d+)', t)
+        return dict(job=i, rc=rc, executed=ex, cov=int(covs[-1][0]) if covs else 0, ft=int(covs[-1][1]) if covs else 0, corp=int(covs[-1][2]) if covs else 0,
+                    cov_init=int(init.group(1)) if init else 0, ft_init=int(init.group(2)) if init else 0, new_units=len(os.listdir(od)))
+    with ThreadPoolExecutor(njobs) as ex:
+        jobs = list(ex.map(job, range(njobs)))
+    execs = sum(j['executed'] for j in jobs)
+    for j in jobs:
+        if j['rc'] is None:
+            res.inconclusive.append({'case': -1, 'why': 'coverage-guided job %d hit the wall-clock watchdog' % j['job'], 'harness': 'h_c03fuzz'})
+    arts = sorted(glob.glob(os.path.join(art, '*')))
+    for a in arts[:40]:
+        rc, err = _fuzz_single(fexe, a)
+        if rc is None:
+            res.inconclusive.append({'case': -1, 'why': 'artifact %s: single re-run hit the wall-clock watchdog' % os.path.basename(a), 'harness': 'h_c03fuzz'}); continue
+        if rc == 0:
+            res.inconclusive.append({'case': -1, 'why': 'artifact %s did not reproduce alone' % os.path.basename(a), 'harness': 'h_c03fuzz'}); continue
+        key = _fuzz_key(err, rc)
+        if key is None:
+            res.inconclusive.append({'case': -1, 'why': 'artifact %s: memory limit of the fuzzer process (not a verdict)' % os.path.basename(a), 'harness': 'h_c03fuzz'}); continue
+        keep = os.path.join(core.OUT, 'fuzz-artifact-C03-' + hashlib.sha1(open(a, 'rb').read()).hexdigest()[:16])
+        shutil.copyfile(a, keep)
+        res.viol.append({'key': key, 'case': -1, 'msg': core._first_report_lines(err), 'replay': {'label': 'h_c03fuzz', 'artifact': keep, 'seed': seed}})
+    if execs < njobs * runs // 2 and not arts:
+        raise build.BuildError('coverage-guided stage executed too little (%d of %d)' % (execs, njobs * runs))
+    return dict(jobs=njobs, runs_per_job=runs, seed_inputs=nseeds, executions=execs, artifacts=len(arts),
+                edges_covered_initial_max=max(j['cov_init'] for j in jobs), edges_covered_final_max=max(j['cov'] for j in jobs), edges_covered_final_min=min(j['cov'] for j in jobs),
+                features_initial_max=max(j['ft_init'] for j in jobs), features_final_max=max(j['ft'] for j in jobs), inputs_added_to_corpus=sum(j['new_units'] for j in jobs))
+
+
+def replay(prop, r):
+    rp = r.get('replay') or {}
+    if not rp.get('artifact'):
+        return None          # generic harness replay
+    fexe = build.build_harness(*HARNESSES['h_c03fuzz'][:2], **HARNESSES['h_c03fuzz'][2])
+    rc, err = _fuzz_single(fexe, rp['artifact'])
+    print(err[-6000:])
+    if rc is None or rc != 0:
+        print('VIOLATION property=%s replay=%s' % (prop, r.get('_path', rp['artifact']))); return 1
+    print('replay: no violation on this tree'); return 0
 
 
 def run(prop, tier, seed, t0):
@@ -39,14 +132,16 @@ def run(prop, tier, seed, t0):
     venv = dict(env, __wrapper__=VALGRIND, VERIF_SLOW='60')
     R.run_sharded(res, exes[3], [], nv, env=venv, label='h_c03/val', variant='val', first=na + npl, wall=7200 if thorough else 1500)
     vg_inputs = res.stat('inputs') - before
+    fz = fuzz_stage(R, res, exes[1], seed, env, thorough)
     cov = {
-        'evaluations': res.stat('inputs'), 'distinct_nontrivial': res.ncells('mutation') + res.ncells('outcome'),
+        'evaluations': res.stat('inputs') + fz['executions'], 'coverage_guided_stage': fz, 'distinct_nontrivial': res.ncells('mutation') + res.ncells('outcome'),
         'rule': 'corpus = compressor output over parameters/data families + tests/decodecorpus.c frames (with/without dictionary) built from the tree + golden files + legacy v0.5-v0.7 and modern frames from tests/legacy.c + skippable/multi-frame; '
                 'mutations: bit/byte flips, truncation, splicing, FIELD-AWARE (R\'s parser gives the positions of descriptor, window/dictID/FCS, block headers, literals-section header, Huffman description, sequence header/modes/tables), random, random after a valid header, trailing bytes, unchanged; '
                 'each input through one-shot, reused DCtx, usingDict/DDict/loadDictionary/refPrefix with true and arbitrary dictionaries, streaming (random segmentation, window limits, stableOut, multi-DDict), tables of 1..300 DDicts with random dictIDs under refMultipleDDicts and frames naming present/absent IDs, buffer-less, block-level decode, all inspectors, skippable reader, in-place decode; exact-size guard-paged source and destination, capacities 0/tiny/exact/large/around the literal-buffer placement edge of a block; under ASan+UBSan, natively with guard pages, and a share under valgrind memcheck (definedness). '
+                'then a coverage-guided stage: 16 libFuzzer processes (clang ASan+UBSan build of the tree, fixed -runs, seeds derived from VERIF_SEED) over the same multi-entry harness, seeded with the frame corpus and one field-aware mutation of each frame; artifacts are re-run alone and keyed like every other violation. '
                 'distinct non-trivial = distinct (origin, mutation kind) + (entry, outcome/error) cells',
         'inputs_under_valgrind_memcheck': vg_inputs, 'static_dctx_runs': res.stat('static_dctx_runs'), 'multi_ddict_tables': res.stat('multi_ddict_tables'), 'multi_ddict_lookups': res.stat('multi_ddict_lookups'), 'multi_ddict_present_id_decoded': res.stat('multi_ddict_present_id_decoded'), 'multi_ddict_present_id_refused': res.stat('multi_ddict_present_id_refused'), 'multi_ddict_table_max_entries': res.maxes.get('multi_ddict_table_max_entries', 0), 'mutation_cells': res.cells.get('mutation', {}), 'one_shot_outcomes': core.topcells(res, 'outcome', 30), 'corpus_items': list(res.cells.get('corpus_size', {}).keys()),
     }
     assumptions = ['clean sanitizer runs are not memory safety: non-adjacent / intra-object overflows and reuse of freed memory after quarantine are invisible; guard pages see adjacent accesses by the assembly loops only',
-                   'CPU budget 5 s + 80 us/KiB per input (all entry points) exceeded twice = hang', 'coverage-guided (libFuzzer) stage of the design not built', 'no 32-bit build']
+                   'CPU budget 5 s + 80 us/KiB per input (all entry points) exceeded twice = hang', 'no 32-bit build']
     return core.finish(prop, tier, seed, 'exploration', res, cov, assumptions, t0, R)
